@@ -1,0 +1,31 @@
+//go:build verif
+
+package flip
+
+// Contracts for the flip plugin (C15, C01, C09), read by /verif's gvc (comment-only file).
+// $arg<d>_<i> is the i-th argument of the function literal at nesting depth d.
+
+//@ func (g *gen) Add(name string, typs []types.Type) (r string, err error)
+//@ param typs: len=0,1,2,3
+//@ param name: classes=Ident
+
+//@ func (g *gen) Generate(typs []types.Type) (err error)
+//@ param typs: len=1
+
+//@ func (g *gen) genFuncFor(ftyp *types.Signature) (err error)
+//@ param ftyp: minparams=2
+//@ name-variants
+//@ emits: decls
+//@ serves: flip len=1 ftyp=typs[0]
+//@ o-sig: (f $ftyp) (r func())
+//@ o-header: unchecked
+//@ o-requires: f != nil
+//@ o-closure: cr0 cr1 cr2
+//@ o-closure-ensures: when nparams(ftyp)=2 [one-call-arguments-in-place] traceLen() == 1 && called(0, f, $arg0_1, $arg0_0)
+//@ o-closure-ensures: when nparams(ftyp)=2 when nresults(ftyp)=1 [results-unchanged] cr0 == result(0, f, $arg0_1, $arg0_0)
+//@ o-closure-ensures: when nparams(ftyp)=2 when nresults(ftyp)=2 [results-unchanged] cr0 == result(0, f, $arg0_1, $arg0_0) && cr1 == result(1, f, $arg0_1, $arg0_0)
+//@ o-closure-ensures: when nparams(ftyp)=2 when nresults(ftyp)=3 [results-unchanged] cr0 == result(0, f, $arg0_1, $arg0_0) && cr1 == result(1, f, $arg0_1, $arg0_0) && cr2 == result(2, f, $arg0_1, $arg0_0)
+//@ o-closure-ensures: when nparams(ftyp)=3 [one-call-arguments-in-place] traceLen() == 1 && called(0, f, $arg0_1, $arg0_0, $arg0_2)
+//@ o-closure-ensures: when nparams(ftyp)=3 when nresults(ftyp)=1 [results-unchanged] cr0 == result(0, f, $arg0_1, $arg0_0, $arg0_2)
+//@ o-closure-ensures: when nparams(ftyp)=3 when nresults(ftyp)=2 [results-unchanged] cr0 == result(0, f, $arg0_1, $arg0_0, $arg0_2) && cr1 == result(1, f, $arg0_1, $arg0_0, $arg0_2)
+//@ o-closure-ensures: when nparams(ftyp)=3 when nresults(ftyp)=3 [results-unchanged] cr0 == result(0, f, $arg0_1, $arg0_0, $arg0_2) && cr1 == result(1, f, $arg0_1, $arg0_0, $arg0_2) && cr2 == result(2, f, $arg0_1, $arg0_0, $arg0_2)
